@@ -101,7 +101,7 @@ class _Base:
         if p.lat_kind == 'uniform':
             return rng.random() * p.lat
         if p.lat_kind == 'heavy':
-            return p.lat * (rng.paretovariate(1.2) - 1.0)
+            return min(p.lat * (rng.paretovariate(1.2) - 1.0), 60.0)
         if p.lat_kind == 'bimodal':
             return p.lat * (10.0 if rng.random() < 0.1 else 0.1) * rng.random()
         return 0.0
